@@ -67,6 +67,15 @@ def run(tier="quick", seed=0):
             boxer.boxes[b.name] = b
         first = rnd.choice(boxes)
         boxer.first = first
+        # preconditions W1/W2 of the exen contract (contracts/c25_boxing.py), checked on every pair of real piles:
+        # a box is in its own pile, and two piles that agree on their whole common length have the same length
+        for a in boxes:
+            for b2 in boxes:
+                pa, pb = a.pile, b2.pile
+                l = min(len(pa), len(pb))
+                stats_w2 = all(pa[j] is pb[j] for j in range(l))
+                if (a not in pa) or (stats_w2 and len(pa) != len(pb)):
+                    v("C25/pile-precondition-of-exen-contract", dict(a=a.name, b=b2.name), [x.name for x in pa], [x.name for x in pb])
         plan = {}
         state = dict(cycle=0)
         failing = {}
